@@ -463,7 +463,8 @@ def judge(desc: dict[str, Any], recipe: list[Any], hang_s: int = 40, profile: st
 def _call(fn: Any, names: list[str], args: list[Any], keyword: bool) -> tuple[str, Any]:
     try:
         if keyword:
-            return "ok", fn(**dict(zip(names, args)))
+            # keywords are written in REVERSED signature order: a call by name must not depend on the order of the names
+            return "ok", fn(**dict(reversed(list(zip(names, args)))))
         return "ok", fn(*args)
     except _Hang:
         raise
